@@ -9,6 +9,7 @@
 //                           of +-eps along every dof and along qvel
 //   E seed feat nbody rep   constraint rows: efc_J (dense) and efc_pos at q and at q +- eps e_k
 //   S seed rep              'simple' bodies on static mounts: constraint rows, mj_jacDifPair / mj_jacSum sparse and dense, finite differences
+//   A k                     fixed corpus: constraint rows of every kind below quaternion joints (qpos address != dof address)
 //   Q k                     fixed corpus: joint / tendon equalities with coupling polynomials (coefficient pattern k)
 //   R                       a fixed tendon that lists the same joint twice must be rejected by mj_compile
 #include "mjgen.h"
@@ -174,6 +175,10 @@ static void efc_block(mjModel* m, mjData* d) {
   pd("eq_data", m->eq_data, mjNEQDATA * m->neq); p1("neqdata", mjNEQDATA);
   pi("jnt_qposadr", m->jnt_qposadr, m->njnt); pi("jnt_dofadr", m->jnt_dofadr, m->njnt); pd("qpos", d->qpos, nq); pd("qpos0", m->qpos0, nq);
   pd("ten_length", d->ten_length, m->ntendon); pd("tendon_length0", m->tendon_length0, m->ntendon);
+  pi("jnt_type", m->jnt_type, m->njnt); pi("dof_jntid", m->dof_jntid, nv); p1("cone", m->opt.cone);
+  { int* ci = (int*)calloc(4 * d->ncon + 4, sizeof(int));
+    for (int c = 0; c < d->ncon; c++) { ci[4*c] = m->geom_type[d->contact[c].geom[0]]; ci[4*c+1] = m->geom_type[d->contact[c].geom[1]]; ci[4*c+2] = d->contact[c].dim; ci[4*c+3] = d->contact[c].efc_address; }
+    pi("contact_info", ci, 4 * d->ncon); free(ci); }
   { // dense copy of ten_J
     mjtNum* tj = (mjtNum*)calloc((size_t)m->ntendon * nv + 1, sizeof(mjtNum));
     for (int t = 0; t < m->ntendon; t++) for (int k = 0; k < m->ten_J_rownnz[t]; k++)
@@ -203,6 +208,7 @@ static void efc_block(mjModel* m, mjData* d) {
     snprintf(nm, sizeof(nm), "%c%d_efc_type", sg ? 'M' : 'P', k); pi(nm, d->efc_type, d->nefc);
     snprintf(nm, sizeof(nm), "%c%d_efc_id", sg ? 'M' : 'P', k); pi(nm, d->efc_id, d->nefc);
     snprintf(nm, sizeof(nm), "%c%d_efc_pos", sg ? 'M' : 'P', k); pd(nm, d->efc_pos, d->nefc);
+    snprintf(nm, sizeof(nm), "%c%d_ten_length", sg ? 'M' : 'P', k); pd(nm, d->ten_length, m->ntendon);
   }
   m->opt.jacobian = savej;
   free(q0); free(dv);
@@ -390,6 +396,63 @@ static void simple_corpus(unsigned long long seed, int rep) {
   mj_deleteData(d); mj_deleteModel(m); mj_deleteSpec(s);
 }
 
+// fixed corpus "address spaces": quaternion joints (free, ball) precede every constrained joint, so that jnt_qposadr, jnt_dofadr,
+// joint id and body id all differ; every row kind is present and active: limits of ball / hinge / slide joints and of a
+// tendon, friction loss on dofs and on a tendon, joint / connect equalities, sphere-plane contacts.  k varies cone, condim, margins
+static void address_corpus(int k) {
+  mjSpec* s = mj_makeSpec();
+  s->option.cone = (k % 2) ? mjCONE_ELLIPTIC : mjCONE_PYRAMIDAL;
+  mjsBody* w = mjs_findBody(s, "world");
+  mjsGeom* fl = mjs_addGeom(w, NULL); fl->type = mjGEOM_PLANE; fl->size[0] = fl->size[1] = 5; fl->size[2] = 0.1;
+  mjsBody* base = mjs_addBody(w, NULL); mjs_setName(base->element, "base"); base->pos[2] = 0.5;
+  mjs_addFreeJoint(base);
+  mjsGeom* g = mjs_addGeom(base, NULL); g->type = mjGEOM_BOX; g->size[0] = 0.1; g->size[1] = 0.08; g->size[2] = 0.05; g->contype = 0; g->conaffinity = 0;
+  const char* names[4] = { "shoulder", "elbow", "wrist", "hand" };
+  int types[4] = { mjJNT_BALL, mjJNT_HINGE, mjJNT_BALL, mjJNT_SLIDE };
+  mjsBody* parent = base;
+  for (int i = 0; i < 4; i++) {
+    mjsBody* b = mjs_addBody(parent, NULL); mjs_setName(b->element, names[i]); b->pos[0] = 0.2; b->pos[1] = 0.03 * i;
+    mjsJoint* j = mjs_addJoint(b, NULL); char jn[16]; snprintf(jn, sizeof(jn), "j%d", i); mjs_setName(j->element, jn);
+    j->type = types[i]; j->axis[0] = 0.2; j->axis[1] = 1; j->axis[2] = 0.3 * i; j->pos[2] = 0.02;
+    j->limited = mjLIMITED_TRUE;
+    if (types[i] == mjJNT_BALL) { j->range[0] = 0; j->range[1] = 0.4 + 0.1 * (k % 3); }
+    else { j->range[0] = -0.3; j->range[1] = 0.2; }
+    if (k % 3 == 1) j->margin = 0.03;
+    j->frictionloss = (i % 2) ? 0.3 : 0;
+    mjsGeom* gg = mjs_addGeom(b, NULL); gg->type = mjGEOM_SPHERE; gg->size[0] = 0.04; gg->pos[0] = 0.1;
+    gg->condim = (k % 4 == 0) ? 1 : (k % 4 == 1) ? 3 : (k % 4 == 2) ? 4 : 6; gg->contype = 1; gg->conaffinity = 1;
+    if (i == 3) { mjsBody* leaf = mjs_addBody(b, NULL); mjs_setName(leaf->element, "tip"); leaf->pos[0] = 0.15;       // second branch below
+      mjsJoint* jj = mjs_addJoint(leaf, NULL); mjs_setName(jj->element, "j4"); jj->type = mjJNT_HINGE; jj->axis[2] = 1; jj->limited = mjLIMITED_TRUE; jj->range[0] = 0.3; jj->range[1] = 0.9; jj->frictionloss = 0.2;
+      mjsGeom* g3 = mjs_addGeom(leaf, NULL); g3->type = mjGEOM_SPHERE; g3->size[0] = 0.03; g3->contype = 1; g3->conaffinity = 1; g3->condim = 3; }
+    parent = b;
+  }
+  mjsTendon* t = mjs_addTendon(s, NULL); mjs_setName(t->element, "t0"); mjs_wrapJoint(t, "j1", 0.8); mjs_wrapJoint(t, "j3", -1.4); mjs_wrapJoint(t, "j4", 0.5);
+  t->limited = mjLIMITED_TRUE; t->range[0] = -0.05; t->range[1] = 0.05; t->frictionloss = 0.4;
+  mjsEquality* e = mjs_addEquality(s, NULL); e->type = mjEQ_JOINT; e->objtype = mjOBJ_JOINT; mjs_setString(e->name1, "j4"); mjs_setString(e->name2, "j1");
+  e->data[0] = 0.1; e->data[1] = 0.7; e->data[2] = -0.4; e->active = 1;
+  mjsEquality* e2 = mjs_addEquality(s, NULL); e2->type = mjEQ_CONNECT; e2->objtype = mjOBJ_BODY; mjs_setString(e2->name1, "hand"); mjs_setString(e2->name2, "shoulder");
+  e2->data[0] = 0.1; e2->data[1] = 0.05; e2->active = 1;
+  mjModel* m = mj_compile(s, NULL);
+  if (!m) { printf("ERR compile %s\n", mjs_getError(s)); mj_deleteSpec(s); return; }
+  mjData* d = mj_makeData(m);
+  mjg_rng R = { 4242ULL + 977ULL * (unsigned long long)k };
+  if (MJG_TRY) {
+    // state: base low above the floor and tilted, ball joints rotated by about 1 rad (beyond their range), hinge / slide beyond an end
+    mjtNum q[4]; mjg_quat(&R, q);
+    d->qpos[2] = 0.12 + 0.02 * (k % 3);
+    for (int i = 0; i < 4; i++) d->qpos[3 + i] = q[i];
+    for (int j = 1; j < m->njnt; j++) {
+      int a = m->jnt_qposadr[j];
+      if (m->jnt_type[j] == mjJNT_BALL) { mjtNum ax[3] = { mjg_range(&R, -1, 1), mjg_range(&R, -1, 1), mjg_range(&R, 0.2, 1) }; mju_normalize3(ax); mju_axisAngle2Quat(d->qpos + a, ax, mjg_range(&R, 0.9, 1.6)); }
+      else d->qpos[a] = (j % 2) ? mjg_range(&R, 0.3, 0.6) : mjg_range(&R, -0.7, -0.4);
+    }
+    { int a = m->jnt_qposadr[m->njnt - 1]; d->qpos[a] = (k % 2) ? 1.2 : 0.1; }
+    efc_block(m, d);
+    MJG_END;
+  } else printf("ERR 2 %s\n", mjg_last_error);
+  mj_deleteData(d); mj_deleteModel(m); mj_deleteSpec(s);
+}
+
 int main(void) {
   mjg_install_handlers();
   char* line = NULL; size_t cap = 0;
@@ -397,6 +460,7 @@ int main(void) {
     char* p = line; char op = *p++;
     if (op == 'R') { repeated_joint_tendon(); printf("END\n"); fflush(stdout); continue; }
     if (op == 'S') { unsigned long long sd = strtoull(p, &p, 10); int rp = (int)strtol(p, &p, 10); simple_corpus(sd, rp); printf("END\n"); fflush(stdout); continue; }
+    if (op == 'A') { address_corpus((int)strtol(p, &p, 10)); printf("END\n"); fflush(stdout); continue; }
     if (op == 'Q') { eq_poly_corpus((int)strtol(p, &p, 10)); printf("END\n"); fflush(stdout); continue; }
     unsigned long long seed = strtoull(p, &p, 10); unsigned feat = (unsigned)strtoul(p, &p, 10);
     int nbody = (int)strtol(p, &p, 10); int rep = (int)strtol(p, &p, 10);
@@ -504,7 +568,35 @@ int main(void) {
             m->eq_data[mjNEQDATA * e + k] = (mask & (1u << k)) ? c : 0;
           }
         }
+        // constraint rows of every kind where qpos addresses and dof addresses differ: in every second request most joint and
+        // tendon limits are made active at the current configuration (ball joints rotated beyond their range, hinge / slide
+        // beyond the lower or the upper end, some with a margin), and friction loss is put on dofs and tendons
+        if (rep % 2 == 1) {
+          mj_fwdPosition(m, d);
+          for (int j = 0; j < m->njnt; j++) {
+            int t = m->jnt_type[j], a = m->jnt_qposadr[j];
+            if (t == mjJNT_FREE || !mjg_chance(&r, 0.7)) continue;
+            if (t == mjJNT_BALL) {
+              mjtNum* q = d->qpos + a; mjtNum vn = sqrt(q[1]*q[1] + q[2]*q[2] + q[3]*q[3]);
+              mjtNum ang = 2 * atan2(vn, fabs(q[0]));
+              if (ang < 0.2) continue;
+              m->jnt_limited[j] = 1; m->jnt_range[2*j] = 0; m->jnt_range[2*j+1] = ang * mjg_range(&r, 0.3, 0.8);
+            } else {
+              mjtNum q = d->qpos[a]; m->jnt_limited[j] = 1;
+              if (mjg_chance(&r, 0.5)) { m->jnt_range[2*j] = q + mjg_range(&r, 0.05, 0.2); m->jnt_range[2*j+1] = q + mjg_range(&r, 0.3, 0.6); }
+              else { m->jnt_range[2*j] = q - mjg_range(&r, 0.3, 0.6); m->jnt_range[2*j+1] = q - mjg_range(&r, 0.05, 0.2); }
+            }
+            m->jnt_margin[j] = mjg_chance(&r, 0.3) ? 0.02 : 0;
+          }
+          for (int t = 0; t < m->ntendon; t++) if (mjg_chance(&r, 0.7)) {
+            mjtNum L = d->ten_length[t]; m->tendon_limited[t] = 1;
+            if (mjg_chance(&r, 0.5)) { m->tendon_range[2*t] = L + 0.1; m->tendon_range[2*t+1] = L + 0.5; } else { m->tendon_range[2*t] = L - 0.5; m->tendon_range[2*t+1] = L - 0.1; }
+            if (mjg_chance(&r, 0.5)) m->tendon_frictionloss[t] = mjg_range(&r, 0.1, 1);
+          }
+          for (int k = 0; k < nv; k++) if (mjg_chance(&r, 0.3)) m->dof_frictionloss[k] = mjg_range(&r, 0.1, 1);
+        }
         efc_block(m, d);
+        cn = -1;      // the model was edited: never reuse it from the cache
       } else err = 1;
       MJG_END;
     } else err = 2;
